@@ -579,6 +579,48 @@ def update_clear_cases(prog, rep):
                          witness={"history": "iindex({(1,): [0,1,2], (2,): [5]}, 0, (8,)).update({(1,): [0,1], (2,): [2]}): row 2 is listed under 1 and under 2"})
 
 
+def complement_routine(prog, rep):
+    """R-C07-de (COMPLEMENT): common_rowids(col) = the rows of that column under NO entry: start from an all-True mask of
+    shape[0] rows, clear exactly the rows of the entries of that column (every entry for a 1-D index), return the
+    positions that are left as uint32."""
+    fi = prog.func("iindexes", "iindex.common_rowids")
+    I = Interp(prog, hints.param_types_for("iindexes"), hints.FIELD_TYPES, inline=False)
+    fr = I.run(fi)
+    where = fi.fq
+    self_t = tm.param("self")
+    col = tm.param(fi.params()[1]) if len(fi.params()) > 1 else None
+    masks = [e for e in I.events if e.kind == "call" and e["name"] in ("numpy.ones", "numpy.full") and not e.stack]
+    okm = len(masks) == 1 and masks[0]["args"] and masks[0]["args"][0] == T("sub", T("attr", self_t, "shape"), tm.const(0)) and tm.dotted(dict(masks[0]["kwargs"]).get("dtype", tm.NONE)) == "builtins.bool"
+    rep.check(okm, "R-C07-de", where, "common_rowids: mask = ones(number of rows, bool)", "", "the mask is not an all-True boolean array with one element per row",
+              witness={"inputs": "any index: rows are missing from / added to the common value's rows"})
+    if not okm:
+        return
+    mask = masks[0]["result"]
+    clears = [e for e in I.events if e.kind == "store_sub" and e["base"] == mask and not e.stack]
+    if len(clears) != 2 or not all(tm.is_const(e["value"], False) for e in clears):
+        rep.undecided("R-C07-de", where, "common_rowids: clearing pass", "expected two stores `mask[rows] = False` (2-D and 1-D branch), found %d" % len(clears))
+        return
+    for e in clears:
+        g = flat_guards(e.guards)
+        two_d = any(c.op == "cmp" and c.args[0] == ">" and pol and tm.contains(c, lambda x: x.op == "attr" and x.args[1] == "shape") for c, pol in g)
+        w = "%s@%d" % (where, e.line)
+        idx = e["index"]
+        rows_ok = idx.op == "dval" and idx.args[0] == self_t or (idx.op == "iter" and tm.contains(idx, lambda x: x == self_t))
+        rep.check(rows_ok, "R-C07-de", w, "common_rowids (%s): the rows cleared are an entry's rows" % ("2-D" if two_d else "1-D"), "", "cleared index is %s" % tm.show(idx)[:40])
+        data = [(c, pol) for c, pol in g if tm.contains(c, lambda x: x.op == "dkey")]
+        if two_d:
+            ok = len(data) == 1 and data[0][1] and data[0][0].op == "cmp" and data[0][0].args[0] == "==" and col is not None \
+                and {tm.show(data[0][0].args[1]), tm.show(data[0][0].args[2])} == {tm.show(T("sub", T("dkey", self_t, idx.args[1] if idx.op == "dval" else None), tm.const(1))), tm.show(col)}
+            rep.check(ok, "R-C07-de", w, "common_rowids (2-D): exactly the entries of the requested column are cleared (coords[1] == colindex)", "",
+                      "the column test is %s: rows of other columns are cleared too (or rows of this column are kept), so the common value's rows of the column are wrong" % [tm.show(c)[:40] for c, p in data],
+                      witness={"inputs": "2-D index with entries in columns 0 and 1: common_rowids(1) also drops the rows listed in column 0"})
+        else:
+            rep.check(not data, "R-C07-de", w, "common_rowids (1-D): every entry's rows are cleared", "", "entries are cleared only under %s" % [tm.show(c)[:40] for c, p in data])
+    rets = [a for v, g in fr.returns for a in tm.alts(v)]
+    okr = bool(rets) and all(tm.contains(r, lambda x: x.op == "call" and tm.callee_name(x) in (".nonzero", "numpy.nonzero", "numpy.flatnonzero", "numpy.where") and tm.contains(x, lambda y: y == mask)) for r in rets)
+    rep.check(okr, "R-C07-de", where, "common_rowids returns the positions still True in the mask", "", "the result is not the set of positions left in the mask")
+
+
 def main(tier):
     rep = core.Report("C07", level="other", rules=RULES, tier=tier,
                       declined="nothing structural; what is assumed: arrays read from existing indexes are well-formed (induction hypothesis), caller-supplied partial entries of update/union_update/... satisfy their documented preconditions")
@@ -592,6 +634,7 @@ def main(tier):
         analyse_root(prog, fi, rep, stats)
     update_order_rule(prog, rep)
     update_clear_cases(prog, rep)
+    complement_routine(prog, rep)
     rep.analysed["roots"] = [f.fq for f in roots]
     rep.analysed["store_sites"] = stats["sites"]
     rep.floor("R-C07-a", 30, stats["sites"])
